@@ -190,8 +190,26 @@ class Impl:
         return [99, t if isinstance(t, int) else -1]
 
     def out_tree(self):
+        """structure of the pending output: header lists blanked (they are observed separately)"""
+        out = []
+        for fr in self.pending:
+            if fr[0] == 1:
+                out.append(fr[:5] + [[]] + fr[6:])
+            elif fr[0] == 5:
+                out.append(fr[:4] + [[]] + fr[5:])
+            else:
+                out.append(fr)
+        return out
+
+    def out_headers(self):
         # header slots still None belong to a block whose END_HEADERS has not been emitted yet
-        return [[x if x is not None else [[-2]] for x in fr] for fr in self.pending]
+        hl = []
+        for fr in self.pending:
+            if fr[0] == 1:
+                hl.append(fr[5] if fr[5] is not None else [[-2]])
+            elif fr[0] == 5:
+                hl.append(fr[4] if fr[4] is not None else [[-2]])
+        return hl
 
     # ---- events ------------------------------------------------------------------------------
     def _tevent(self, e, evs, idx):
@@ -462,7 +480,7 @@ class Impl:
                     L = ln
             aop = (op[:3] + (L,) + op[4:]) if k == 'SendHeaders' else (op[:4] + (L,))
         enc_delta.reverse()   # model log is newest first
-        parts = [res, self.out_tree(), enc_delta] + self.probe()
+        parts = [res, self.out_tree(), enc_delta] + self.probe() + [self.out_headers()]
         return aop, parts
 
     def _h2error(self):
